@@ -3,22 +3,26 @@ From Coq Require Import List Bool NArith.
 From PFL Require Import Base.ListSet Base.Closure Spec.Enfa.
 Import ListNotations.
 
-Definition succs (A : enfa) (l : option N) (q : N) : list N :=
+Section M.
+  Context {Q : Type} `{EqDec Q}.
+
+Definition succs (A : enfa Q) (l : option N) (q : Q) : list Q :=
   flat_map (fun t => match t with (p, l', r) => if eqb p q && eqb l l' then [r] else [] end) (e_delta A).
 
-Definition targets (A : enfa) : list N := map (fun t => snd t) (e_delta A).
+Definition targets (A : enfa Q) : list Q := map (fun t => snd t) (e_delta A).
 
 (* EpsilonNFA.eclose_iterable: the union of the eclose of each member = closure of the set *)
-Definition eclose (A : enfa) (S : list N) : list N :=
+Definition eclose (A : enfa Q) (S : list Q) : list Q :=
   closure (succs A None) (S ++ targets A) S.
 
 (* _get_next_states_iterable *)
-Definition step_set (A : enfa) (S : list N) (a : N) : list N :=
+Definition step_set (A : enfa Q) (S : list Q) (a : N) : list Q :=
   flat_map (succs A (Some a)) S.
 
-Definition dstep (A : enfa) (S : list N) (a : N) : list N := eclose A (step_set A S a).
-Definition is_final_set (A : enfa) (S : list N) : bool := existsb (fun q => mem q (e_finals A)) S.
+Definition dstep (A : enfa Q) (S : list Q) (a : N) : list Q := eclose A (step_set A S a).
+Definition is_final_set (A : enfa Q) (S : list Q) : bool := existsb (fun q => mem q (e_finals A)) S.
 
 (* EpsilonNFA.accepts *)
-Definition accepts (A : enfa) (w : list N) : bool :=
+Definition accepts (A : enfa Q) (w : list N) : bool :=
   is_final_set A (fold_left (dstep A) w (eclose A (e_starts A))).
+End M.
